@@ -37,7 +37,7 @@ def has_unmodelled(ctx):
     ['LVA', argspec] = the legacy verbatim parser for a \\verb-like macro WITH leading standard arguments"""
     if ctx == 'default':
         return False
-    bad = lambda a: a is not None and a[0] in ('LVA', 'SH')
+    bad = lambda a: a is not None and a[0] in ('LVA', 'SH', 'VB')
     if ctx.get('provide'):
         return True
     return any(bad(a) for _, a in ctx['macros']) or any(bad(a) for _, a, _ in ctx['envs']) or any(bad(a) for _, a in ctx['specials'])
@@ -96,6 +96,11 @@ def make_spec(cls, name, argsp, **kw):
         return cls(name, arguments_spec_list=make_argspec_list(argsp[1]), **kw)
     if argsp[0] == 'LV':
         return cls(name, args_parser=macrospec.VerbatimArgsParser(verbatim_arg_type='verb-macro'), **kw)
+    if argsp[0] == 'VB':
+        # an environment whose body is read by the pylatexenc-3 verbatim parser (public class of latexnodes.parsers)
+        from pylatexenc.latexnodes import parsers as _p
+        nm = name
+        return cls(name, make_body_parser=lambda tok, nodeargd, arg_ps_delta: _p.LatexVerbatimEnvironmentContentsParser(environment_name=nm), **kw)
     if argsp[0] == 'LVA':
         return cls(name, args_parser=macrospec.VerbatimArgsParser(verbatim_arg_type='verb-macro', verbatim_argspec=argsp[1]), **kw)
     if argsp[0] == 'LE':
